@@ -747,6 +747,8 @@ def evaluate(spec):
         from harness.props.C06_hard import judge_big
 
         j = guarded(judge_big, spec, info, timeout=60)
+        if j[0] == "hang":
+            return info, None, {"oracle_timeout": 1}     # no verdict from the probing oracle (never a failure); Coq `enc` still applies
         if j[0] != "ok":
             return info, f"oracle could not finish ({j[0]}: {j[1:]})", {}
         return info, j[1][0], j[1][1]
@@ -799,7 +801,8 @@ def run(ctx: Ctx):
     specs = _corpus() + [json.loads(json.dumps(s)) for s in EDGE_SPECS] + [rand_spec(ctx.rng) for _ in range(n)]
     # round-2 families (HARDENING.md): A twins, M magnitudes, L names, I iterables; S and O below; H directed at the end
     specs += [H.twin_spec(ctx.rng) for _ in range(ctx.budget(140, 1500))]
-    specs += [H.magnitude_spec(ctx.rng) for _ in range(ctx.budget(70, 700))]
+    specs += [H.magnitude_spec(ctx.rng) for _ in range(ctx.budget(60, 700))]
+    specs += [H.many_constraints(ctx.rng) for _ in range(ctx.budget(4, 40))]
     specs += [H.relabel(ctx.rng, rand_spec(ctx.rng)) for _ in range(ctx.budget(40, 400))]
     specs += [H.with_iterables(ctx.rng, rand_spec(ctx.rng) if ctx.rng.random() < 0.7 else H.twin_spec(ctx.rng)) for _ in range(ctx.budget(50, 500))]
     for sp in specs:
@@ -861,7 +864,7 @@ def run(ctx: Ctx):
         if H.coq_span_ok(spec):
             coq_cases.append(term)
             metas.append((spec, info))
-        if H.coq_proj_ok(spec) and (fam in ("base", "H") or thorough or len(coq_cases) % 3 == 0):
+        if H.coq_proj_ok(spec) and (fam in ("base", "H") or thorough or len(coq_cases) % 3 == 0) and (thorough or stats.get("cnf_models", 0) <= 400):
             coq_proj.append((term, spec, info))
 
     for spec in specs:
